@@ -248,6 +248,7 @@ def _execute_l1(scn):
         nonlocal viol, multi_recv_ops
         f0 = link.fault_in_call
         c0 = link.calls
+        closed_before = link.eof_seen
         kind = op[0]
         try:
             if kind == "read":
@@ -264,7 +265,10 @@ def _execute_l1(scn):
                 return True
             viol = violation(PROP, f"exception:{type(e).__name__}", f"{op} raised {type(e).__name__}: {e}")
             return False
-        faulted = link.fault_in_call > f0
+        # "returns fewer only when the peer has closed or a timeout occurs": a fault in this very
+        # call, or a close that the wrapper was already told about (recv returned b"" in an earlier
+        # call -- a wrapper that remembers it need not ask the socket again)
+        faulted = link.fault_in_call > f0 or closed_before
         if link.calls - c0 >= 2:
             multi_recv_ops += 1
         if kind == "inw":
